@@ -3,7 +3,9 @@ Sys/TopicLoad.v (load paths of all topic kinds, peer-to-peer and 'sys' topics) a
 Sys/TopicBurstC01.v (several requests in flight: bursts, write loops, idle-unload race);
 correspondence and monitor through the topic-history driver (group), the load-path driver
 zz_verif_c01x_test.go (p2p, sys) and the burst / unload-race driver zz_verif_c01b_test.go
-(tools/props/c01burst.py): real hub/topic/session code above memverif."""
+(tools/props/c01burst.py): real hub/topic/session code above memverif.  tools/props/c01ims.py adds: description
+queries with options (Sys/TopicImsC01.v, driver zz_verif_c01i_test.go), channel subscriptions as recipients (the C02
+fan-out slice) and the later queries of those recipients (Sys/FanoutQueryC01.v, driver zz_verif_c01q_test.go)."""
 import json
 import os
 import re
@@ -13,6 +15,7 @@ import vlib
 from props import statelib
 from props import topiclib as T
 from props import c01burst
+from props import c01ims
 from props.statelib import kvs
 
 
@@ -506,6 +509,21 @@ def run(ctx):
         if rp is not None:
             ctx.coverage.setdefault("trusted_base", []).append("harness/overlay/server/zz_verif_c01b_test.go: burst / unload-race driver")
             ctx.finish()
+    if ok_r and ok_m and ctx.proof_ok() and (rp is None or rp.get("part") == "ims"):
+        c01ims.run_ims(ctx, monitor)
+        if rp is not None:
+            ctx.coverage.setdefault("trusted_base", []).append("harness/overlay/server/zz_verif_c01i_test.go: description-options driver")
+            ctx.finish()
+    if ok_r and ok_m and ctx.proof_ok() and (rp is None or rp.get("part") == "chan"):
+        c01ims.run_channel(ctx)
+        if rp is not None:
+            ctx.coverage.setdefault("trusted_base", []).append("harness/overlay/server/zz_verif_c02_test.go: fan-out driver of the C02 check (channel-enabled topics)")
+            ctx.finish()
+    if ok_r and ok_m and ctx.proof_ok() and (rp is None or rp.get("part") == "queries"):
+        c01ims.run_queries(ctx)
+        if rp is not None:
+            ctx.coverage.setdefault("trusted_base", []).append("harness/overlay/server/zz_verif_c01q_test.go: query driver on the fan-out topics of the C02 check")
+            ctx.finish()
     ctx.violations = [v for v in ctx.violations if v["key"] != "proof-broken"]   # re-raised by run_stateful
     ctx.coq_props = lambda extra_files=(): proof
     ctx.build_runner = lambda: (ok_r, out_r)
@@ -518,4 +536,6 @@ def run(ctx):
                  "harness/overlay/server/zz_verif_c01x_test.go: p2p/sys load-path driver (stored state seeded through the store mappers; 'sys' row reset between scenarios)",
                  "the reduction 'all publishes of a topic are handled by one goroutine, so any interleaving of sessions is some order of requests' is exercised (bursts dispatched without waiting: Go channel FIFO), not proved",
                  "harness/overlay/server/zz_verif_c01b_test.go: burst / unload-race driver - write loops that serialise with Session.serialize at dequeue time and can be held; the kill timer's unregister request is handed to the real hub when the scenario says so; a {pub} queued at an unregistered instance (by the real Session.publish) is handled by the driver calling that instance's handleClientMsg after its goroutine has ended (select order clientMsg-before-exit emulated); hubunregmid holds the instance's goroutine at the entry of TopicUpdateOnMessage with the memverif call hook; store.Messages is wrapped to record every SeqId passed to Save and the outcome",
+                 "harness/overlay/server/zz_verif_c01i_test.go: description-options driver - the concrete If-Modified-Since timestamp of every query is built by the driver on the side (before / not before) of the topic's CURRENT t.updated that the scenario names, t.updated being read at quiescence from the loaded topic or from the stored row; desc.created / desc.public are printed and compared for the evidence only",
+                 "channel recipients and later queries: the C02 fan-out driver harness/overlay/server/zz_verif_c02_test.go and its extension zz_verif_c01q_test.go (qdesc / qdata; {meta desc} rendered as seq + acs present); 'attached at that moment' and 'effective permissions' in the laws are the implementation's own state dump after the previous request; queries are inserted into the C02 generator's histories after the fact, for connections attached by the fan-out model's state",
                  "frames of the model are values: 'no mutable state shared between a queued frame and later work of the topic goroutine' is checked by the driver (serialisation at dequeue time with held write loops), not proved"])
